@@ -70,9 +70,9 @@ prop('C09', contracts=[],
      technique='not decided deductively yet: bounded enumeration of synthetic engines against the declared graph (labelled bounded)',
      explanation='BOUNDED ONLY: Construct.at/svt/tt/vt, ancestry and feedbacks compared with the graph computed from the declarations',
      assumptions=[A5])
-prop('C10', contracts=['c12_submit'],
-     technique=TECH + 'FSM guard (transitioning setter), activity predicate and reset proved; trigger/completion orders by the bounded stand-in',
-     explanation='PROVED: the transitioning setter only leaves `active` from `active` and raises otherwise leaving the guard unchanged; is_pipeline_active() <=> state==running and transitioning==active; reset() sets all events, clears the priority and ends active. BOUNDED ONLY: the transition table against state.dot, every trigger sequence with background completions in every order, return to rest.',
+prop('C10', contracts=['c12_submit', 'c10_fsm'],
+     technique=TECH + 'transition table from the real state.dot compared edge by edge; every FSM callback (start excepted) proved against the machine semantics; trigger/completion orders by the bounded stand-in',
+     explanation='PROVED: (table) the edges, triggers and before/after callbacks read from the real state.dot through the real construct_attributes are exactly the documented ones; the transitioning setter only leaves `active` from `active` and raises MachineError otherwise with nothing changed; save_prior_state rejects a trigger arriving during another transition without side effects; is_pipeline_active() <=> running and at rest; reset() sets all events, clears the priority, ends active; navel_gaze/_navel_gaze, archive/_archive_done, load/done, reload/done each leave exactly one background step outstanding (transitioning != active) or end at rest, fire exactly the documented follow-up trigger, and _archive_done returns to the state archiving was entered from (running -> running at rest; updating -> updating then refresh). BOUNDED ONLY: closure over every trigger sequence with completions in every order (reaches a fixpoint of 312 configurations), FSM.start.',
      trusted_base=['transitions.Machine trigger semantics (A7)'], assumptions=[A1, A7])
 prop('C11', contracts=['c11_farm'],
      technique=TECH + 'registration, notification, gate and run-id contracts on farm.Hand/farm functions; bounded protocol histories as stand-in',
